@@ -2,8 +2,9 @@
 //
 // DUT: the real link_layer<> over llw::radio_enc, a GATT server with one characteristic that requires encryption and one
 // that does not.  Key source (variant C28_KEYS):
-//   0 "bonddb"  the real default security manager + bluetoe::bonding_data_base<> whose find_key() knows exactly one
-//               ( EDIV, Rand, peer address ) triple
+//   0 "bonddb"  the real bluetoe::security_manager (legacy + LESC pairing) + bluetoe::bonding_data_base<> whose find_key()
+//               knows exactly one ( EDIV, Rand, peer address ) triple; SMP Pairing Requests are part of the alphabet, so that
+//               "pairing started, never completed" is reachable: EDIV = 0 / Rand = 0 then still has no key
 //   1 "scripted" a scripted security manager (as tests/link_layer/ll_encryption_tests.cpp) answering find_key() directly
 // E1: all sequences of the alphabet below up to the depth bound (C28_explore.hpp); one transition = one connection event (so "response in the next
 // event" orders are explored with and without gaps).  A reference automaton of the encryption start / pause procedures
@@ -67,7 +68,7 @@ struct bond_db
     }
     template < class Connection > void restore_cccds( Connection& ) {}
 } db;
-using ll_t = bluetoe::link_layer::link_layer< server_t, llw::radio_enc, bluetoe::bonding_data_base< bond_db, db >, bluetoe::link_layer::buffer_sizes< C28_BUF, C28_BUF > >;
+using ll_t = bluetoe::link_layer::link_layer< server_t, llw::radio_enc, bluetoe::security_manager, bluetoe::bonding_data_base< bond_db, db >, bluetoe::link_layer::buffer_sizes< C28_BUF, C28_BUF > >;
 static const char* const default_unit = "C28_ll_encryption-bonddb";
 #else
 struct scripted_sm
@@ -124,6 +125,8 @@ struct World
         std::uint8_t due_start_rsp, due_pause_rsp;
         std::uint8_t due_read;         // 0 none, 1 read response with the value, 2 error insufficient encryption / authentication
         std::uint8_t due_read_public;
+        std::uint8_t due_smp;          // an answer of the security manager ( L2CAP channel 6 ) is due
+        std::uint8_t zero_req;         // the last LL_ENC_REQ carried EDIV = 0 / Rand = 0
         std::uint8_t start_req_sent;   // LL_START_ENC_REQ of the running procedure seen on air
         std::uint8_t any_enc_req, any_key_found;   // in this connection
         std::uint32_t connections;
@@ -132,14 +135,15 @@ struct World
     bool with_bursts = false;
 
     enum { EV_EMPTY, EV_ENC_KNOWN, EV_ENC_UNKNOWN, EV_START_RSP, EV_PAUSE_REQ, EV_PAUSE_RSP, EV_READ_SECRET, EV_READ_PUBLIC, EV_RECONNECT,
-           EV_ENC_KNOWN_THEN_TERMINATE, EV_COUNT };
+           EV_ENC_KNOWN_THEN_TERMINATE, EV_PAIRING_REQUEST, EV_ENC_ZERO, EV_COUNT };
 
-    int num_events() const { return with_bursts ? int( EV_COUNT ) : int( EV_ENC_KNOWN_THEN_TERMINATE ); }
+    int num_events() const { return with_bursts ? ( C28_KEYS == 0 ? int( EV_COUNT ) : int( EV_PAIRING_REQUEST ) ) : int( EV_ENC_KNOWN_THEN_TERMINATE ); }
     std::string describe( int ev ) const
     {
         static const char* n[] = { "empty event", "LL_ENC_REQ(known EDIV/Rand)", "LL_ENC_REQ(unknown EDIV/Rand)", "LL_START_ENC_RSP", "LL_PAUSE_ENC_REQ", "LL_PAUSE_ENC_RSP",
                                    "ATT Read Request(protected)", "ATT Read Request(open)", "LL_TERMINATE_IND, CONNECT_IND, first event",
-                                   "LL_ENC_REQ(known)+LL_TERMINATE_IND in one event, CONNECT_IND, first event" };
+                                   "LL_ENC_REQ(known)+LL_TERMINATE_IND in one event, CONNECT_IND, first event",
+                                   "SMP Pairing Request (legacy, just works)", "LL_ENC_REQ(EDIV 0, Rand 0)" };
         return n[ ev ];
     }
 
@@ -164,10 +168,10 @@ struct World
     }
     void regions( mc::Regions& r ) { r.add( ll.raw, sizeof ll.raw ); r.add( keys ); r.add( secret_value ); r.add( public_value ); r.add( ref ); }
 
-    static void enc_req( std::uint8_t* b, bool known )
+    static void enc_req( std::uint8_t* b, bool known, bool zero = false )
     {
         b[ 0 ] = 0x03; b[ 1 ] = 23; b[ 2 ] = ENC_REQ;
-        const std::uint64_t rand = known_rand; const std::uint16_t ediv = known ? known_ediv : std::uint16_t( known_ediv + 1 );
+        const std::uint64_t rand = zero ? 0 : known_rand; const std::uint16_t ediv = zero ? 0 : known ? known_ediv : std::uint16_t( known_ediv + 1 );
         for ( int i = 0; i != 8; ++i ) b[ 3 + i ] = std::uint8_t( rand >> ( 8 * i ) );
         b[ 11 ] = std::uint8_t( ediv ); b[ 12 ] = std::uint8_t( ediv >> 8 );
         for ( int i = 0; i != 8; ++i ) b[ 13 + i ] = std::uint8_t( 0xa0 + i );     // SKDm
@@ -213,6 +217,7 @@ struct World
             {
                 const bool ext = is_ctrl( p, REJECT_EXT_IND, 3 ) && p->d[ 3 ] == ENC_REQ && p->d[ 4 ] == err_pin_or_key_missing;
                 const bool old = is_ctrl( p, REJECT_IND, 2 ) && p->d[ 3 ] == err_pin_or_key_missing;
+                if ( !ext && !old && ref.zero_req ) { c.fail( "enc-req:ediv-rand-zero-without-completed-pairing:not-rejected", "no pairing was completed in this connection, LL_ENC_REQ( EDIV 0, Rand 0 ) was not answered by LL_ENC_RSP + LL_REJECT(_EXT)_IND(0x06): " + c.obs ); return false; }
                 if ( !ext && !old ) { c.fail( "enc-req:unknown-key:not-rejected-with-pin-or-key-missing", "LL_ENC_REQ for an unknown EDIV/Rand not answered by LL_ENC_RSP + LL_REJECT(_EXT)_IND(0x06): " + c.obs ); return false; }
                 c.cls( ext ? "LL_ENC_REQ(unknown)->LL_ENC_RSP,LL_REJECT_EXT_IND(pin or key missing)" : "LL_ENC_REQ(unknown)->LL_ENC_RSP,LL_REJECT_IND(pin or key missing)" );
             }
@@ -268,6 +273,14 @@ struct World
             }
             due = 0;
         }
+        if ( ref.due_smp )
+        {
+            const llw::pdu* p = next();
+            const bool smp = p && ( p->d[ 0 ] & 3 ) == 2 && p->n >= 7 && p->d[ 4 ] == 0x06 && p->d[ 5 ] == 0x00;
+            if ( !smp ) { c.fail( "smp:pairing-request-not-answered", "no security manager PDU in the event after the Pairing Request: " + c.obs ); return false; }
+            c.cls( p->d[ 6 ] == 0x02 ? "Pairing Request->Pairing Response" : mc::fmt( "Pairing Request->SMP 0x%02x (0x%02x)", p->d[ 6 ], p->d[ 7 ] ) );
+            ref.due_smp = 0;
+        }
         if ( const llw::pdu* p = next() )
         {
             std::string what = mc::hex( p->d, p->n < 12 ? p->n : 12 );
@@ -316,9 +329,32 @@ struct World
             ll->sim_empty_event();
             if ( !check_transmitted( c ) ) return true;
             break;
+        case EV_PAIRING_REQUEST:
+        {
+            // IO capability NoInputNoOutput, no OOB, bonding, key size 16, no keys to distribute: legacy just works
+            const std::uint8_t smp[ 7 ] = { 0x01, 0x03, 0x00, 0x01, 0x10, 0x00, 0x00 };
+            if ( ll->sim_l2cap( 0x0006, smp, sizeof smp ) != 1 ) { c.fail( "harness:central-pdu-not-accepted", "receive buffer full" ); return true; }
+            if ( !check_transmitted( c ) ) return true;
+            ref.due_smp = 1;
+            input_class = "after-pairing-request";
+            break;
+        }
+        case EV_ENC_ZERO:
+        {
+            // no pairing is ever completed in this world and the bond data base does not know EDIV 0: there is no key
+            enc_req( b, false, true );
+            ll_t::in_pdu p{ b, 25 };
+            if ( !deliver( &p, 1, c ) ) return true;
+            if ( !check_transmitted( c ) ) return true;
+            ref.due_enc_rsp = 2; ref.zero_req = 1;
+            ref.start_req_sent = 0; ref.any_enc_req = 1; ref.phase = 0;
+            input_class = "after-enc-req-ediv-rand-zero";
+            break;
+        }
         case EV_ENC_KNOWN: case EV_ENC_UNKNOWN:
         {
             enc_req( b, ev == EV_ENC_KNOWN );
+            ref.zero_req = 0;
             const std::uint32_t lookups = keys.lookups, hits = keys.hits;
             ll_t::in_pdu p{ b, 25 };
             if ( !deliver( &p, 1, c ) ) return true;
@@ -420,7 +456,7 @@ int main( int argc, char** argv )
     mc::Args a = mc::parse_args( argc, argv );
     mc::Report rep; rep.property = "C28";
     rep.unit = a.opt.count( "unit" ) ? a.opt[ "unit" ] : default_unit;
-    const int depth = int( a.num( "depth", a.thorough() ? 8 : 6 ) );
+    const int depth = int( a.num( "depth", a.thorough() ? ( C28_KEYS == 0 ? 7 : 8 ) : 6 ) );    // 12 events with the security manager, 10 without
     w.with_bursts = a.num( "bursts", 1 ) != 0;
     if ( !a.replay.empty() )
     {
@@ -430,8 +466,8 @@ int main( int argc, char** argv )
     explore::Dfs< World > dfs( w, rep, a, depth );
     rep.counters[ "bytes per state" ] = dfs.isz;
     dfs.run();
-    rep.notes[ "alphabet" ] = mc::fmt( "%d events: LL_ENC_REQ known/unknown, LL_START_ENC_RSP, LL_PAUSE_ENC_REQ/RSP, ATT read protected/open, empty event, terminate+reconnect%s; all sequences up to length %d",
-                                       w.num_events(), w.with_bursts ? ", LL_ENC_REQ+LL_TERMINATE_IND in one event" : "", depth );
+    rep.notes[ "alphabet" ] = mc::fmt( "%d events: LL_ENC_REQ known/unknown, LL_START_ENC_RSP, LL_PAUSE_ENC_REQ/RSP, ATT read protected/open, empty event, terminate+reconnect%s%s; all sequences up to length %d",
+                                       w.num_events(), w.with_bursts ? ", LL_ENC_REQ+LL_TERMINATE_IND in one event" : "", w.num_events() > 10 ? ", SMP Pairing Request, LL_ENC_REQ(EDIV 0, Rand 0)" : "", depth );
     rep.notes[ "states" ] = "states = nodes of the sequence tree (byte images are not merged: event counters make every history distinct)";
     rep.write( a );
     return 0;
